@@ -7,8 +7,11 @@ import (
 	"go/token"
 	"os"
 	"path/filepath"
+	"runtime/debug"
 	"sort"
 	"strings"
+	"syscall"
+	"unsafe"
 
 	"github.com/esimov/gogu"
 	"github.com/esimov/gogu/heap"
@@ -345,7 +348,109 @@ func c16(r *R) {
 		}
 	}
 	c16Variadic(r, maps)
+	c16ReadOnly(r, calls, inputs)
+	c16ResultParts(r)
 	c16Inventory(r, calls, mcs)
+}
+
+// c16ReadOnly: every helper that is not in-place by contract is run with its slice argument placed in a
+// memory page that is mapped READ-ONLY. Any write to the argument -- also one that is undone before
+// the helper returns, which no before/after comparison and no callback can see -- faults, and the fault
+// is turned into a panic of the calling goroutine (debug.SetPanicOnFault). Exhaustive over the same
+// inputs as the single-call pass, and deterministic: no second goroutine, no race detector.
+func c16ReadOnly(r *R, calls []sliceCall, inputs [][]int) {
+	page, err := syscall.Mmap(-1, 0, 4096, syscall.PROT_READ|syscall.PROT_WRITE, syscall.MAP_ANON|syscall.MAP_PRIVATE)
+	if err != nil {
+		r.Set("read_only_argument_pass", "skipped: mmap failed: "+err.Error())
+		return
+	}
+	defer syscall.Munmap(page)
+	old := debug.SetPanicOnFault(true)
+	defer debug.SetPanicOnFault(old)
+	n := 0
+	for _, c := range calls {
+		if c.inPlace {
+			continue
+		}
+		for _, s := range inputs {
+			if len(s) == 0 {
+				continue
+			}
+			syscall.Mprotect(page, syscall.PROT_READ|syscall.PROT_WRITE)
+			x := unsafe.Slice((*int)(unsafe.Pointer(&page[0])), len(s))
+			copy(x, s)
+			syscall.Mprotect(page, syscall.PROT_READ)
+			p, msg := enum.Try(func() { c.f(x[:len(s):len(s)]) })
+			n++
+			r.Eval(c.name)
+			if p && (strings.Contains(msg, "fault") || strings.Contains(msg, "invalid memory address") || strings.Contains(msg, "unexpected signal")) {
+				r.Bad(helperOf(c.name)+"/writes-to-its-argument", fmt.Sprintf("%s with x=%v placed in read-only memory", c.name, s), "the helper wrote to its argument (memory fault: %s)", msg)
+			}
+		}
+	}
+	r.Set("read_only_argument_calls", n)
+}
+
+// c16ResultParts: the parts of ONE result (the two groups of Partition, the groups of GroupBy, the
+// rows of Zip/Unzip, the two lists of PartitionMap) are results in their own right: growing one of them
+// (append within its capacity) must not reach into another. Checked on the capacity regions of the
+// parts. Chunk is exempt: its chunks are views of the argument by contract.
+func c16ResultParts(r *R) {
+	overlap := func(parts [][]int) (int, int, bool) {
+		for i := range parts {
+			for j := range parts {
+				if i == j || cap(parts[i]) == 0 || cap(parts[j]) == 0 {
+					continue
+				}
+				ai := uintptr(unsafe.Pointer(unsafe.SliceData(parts[i])))
+				aj := uintptr(unsafe.Pointer(unsafe.SliceData(parts[j])))
+				if ai <= aj && aj < ai+uintptr(cap(parts[i]))*unsafe.Sizeof(int(0)) {
+					return i, j, true
+				}
+			}
+		}
+		return 0, 0, false
+	}
+	for _, s := range enum.AllSlices([]int{0, 1, 2}, 4) {
+		for _, sp := range []int{0, 3} {
+			_, x := window(s, sp)
+			chk := func(name string, parts [][]int) {
+				r.Eval(name)
+				if i, j, bad := overlap(parts); bad {
+					r.Bad(name+"/parts-of-its-result-share-storage", fmt.Sprintf("%s with x=%v", name, s), "growing part %d of the result within its capacity (%d > len %d) would overwrite part %d", i, cap(parts[i]), len(parts[i]), j)
+				}
+			}
+			pt := gogu.Partition(x, isZero)
+			chk("Partition", [][]int{pt[0], pt[1]})
+			var groups [][]int
+			for _, g := range gogu.GroupBy(x, ident) {
+				groups = append(groups, g)
+			}
+			chk("GroupBy", groups)
+			if len(s) == 2 {
+				if p, _ := enum.Try(func() { chk("Zip", gogu.Zip(x, x)) }); p {
+					continue
+				}
+				enum.Try(func() { chk("Unzip", gogu.Unzip(x, x)) })
+			}
+		}
+	}
+	// PartitionMap: two lists of maps
+	ms := []map[string]int{{"a": 1}, {"a": 1, "b": 2}, {}, {"c": 3}}
+	for n := 0; n <= len(ms); n++ {
+		for _, pred := range []func(map[string]int) bool{func(m map[string]int) bool { return len(m) > 1 }, func(m map[string]int) bool { return len(m) == 1 }} {
+			res := gogu.PartitionMap(append([]map[string]int{}, ms[:n]...), pred)
+			r.Eval("PartitionMap")
+			a, b := res[0], res[1]
+			if cap(a) > len(a) && len(b) > 0 {
+				pa := uintptr(unsafe.Pointer(unsafe.SliceData(a)))
+				pb := uintptr(unsafe.Pointer(unsafe.SliceData(b)))
+				if pa <= pb && pb < pa+uintptr(cap(a))*unsafe.Sizeof(a[0]) {
+					r.Bad("PartitionMap/parts-of-its-result-share-storage", fmt.Sprintf("PartitionMap of %d maps", n), "appending to the first group within its capacity would overwrite the second group")
+				}
+			}
+		}
+	}
 }
 
 // c16Variadic: a variadic parameter list is an argument too. A caller that spreads a slice it holds
@@ -439,8 +544,8 @@ func c16Variadic(r *R, maps []map[string]int) {
 		tuples = append(tuples, [][]int{a})
 		for _, b := range tiny {
 			tuples = append(tuples, [][]int{a, b})
-			if thorough {
-				for _, c := range tiny {
+			for _, c := range tiny {
+				if thorough || (len(a) > 0 && len(b) > len(c)) { // quick: triples whose later lists are not in ascending length order
 					tuples = append(tuples, [][]int{a, b, c})
 				}
 			}
